@@ -73,13 +73,52 @@ pub enum Step {
     Ingest(Vec<Batch>),
     Flush,
     Restart,
+    /// one flush run step by step (parked at sync points) with other calls in between
+    Inter(Inter),
 }
 
 impl Step {
     pub fn kind(&self) -> &'static str {
-        match self { Step::Ingest(_) => "I", Step::Flush => "F", Step::Restart => "R" }
+        match self { Step::Ingest(_) => "I", Step::Flush => "F", Step::Restart => "R", Step::Inter(_) => "Z" }
     }
 }
+
+/// How the flush of an `Inter` step is started.
+#[derive(Clone, Debug)]
+pub enum Trigger {
+    /// a `force_flush()` call from a helper thread (it blocks until the flush thread answers)
+    Request,
+    /// an ingestion that crosses `max_wal_files` (the configuration must have `wal_files = 0`): the background thread flushes
+    Background(Vec<Batch>),
+}
+
+/// What happens while the flush thread is parked at a sync point.
+#[derive(Clone, Debug)]
+pub enum Act {
+    Ingest(Vec<Batch>),
+    /// a further `force_flush()` call from another helper thread
+    Request,
+}
+
+#[derive(Clone, Debug)]
+pub struct Inter {
+    pub trigger: Trigger,
+    /// park points in flush order: index into `PARK_LABELS`, actions performed while the flush thread is parked there
+    pub parks: Vec<(usize, Vec<Act>)>,
+}
+
+/// Sync points (all on the flush thread, all after the freeze block) where a flush is parked:
+/// (label, short name, number of model steps of the flush completed there — 1 = freeze … 5 = delete_wal_segments,
+///  is the label exactly a step boundary of the model)
+pub const PARK_LABELS: &[(&str, &str, usize, bool)] = &[
+    ("flush:freeze:after", "freeze", 1, true),
+    ("flush:batching:done", "batching", 1, false),
+    ("flush:persist:after", "persist", 1, false),
+    ("flush:compaction:done", "compaction", 2, true),
+    ("flush:meta:after", "meta", 3, true),
+    ("flush:gc:partitions:after", "gcparts", 4, true),
+    ("flush:gc:wal:after", "gcwal", 5, true),
+];
 
 /// One table share as a protocol token: `<hex table>:<nrows>:<hex col>=<cells>/<hex col>=<cells>` (cells `.`-separated).
 pub fn batch_tok(b: &Batch) -> String {
@@ -228,6 +267,7 @@ impl Sut {
                 self.db = None; // drop: LocustDB::drop -> stop()
                 self.reopen();
             }
+            Step::Inter(_) => unreachable!("interleaved flushes are run by run_inter"),
         }
     }
 
@@ -440,7 +480,17 @@ pub fn sut_dump(s: &Sut, tables: &[String]) -> String {
 /// Tables mentioned by the first `n` steps.
 pub fn tables_of(steps: &[Step]) -> Vec<String> {
     let mut v: Vec<String> = vec![];
-    for s in steps { if let Step::Ingest(bs) = s { for b in bs { if !v.contains(&b.table) { v.push(b.table.clone()); } } } }
+    let mut add = |bs: &Vec<Batch>| for b in bs { if !v.contains(&b.table) { v.push(b.table.clone()); } };
+    for s in steps {
+        match s {
+            Step::Ingest(bs) => add(bs),
+            Step::Inter(it) => {
+                if let Trigger::Background(bs) = &it.trigger { add(bs); }
+                for (_, acts) in &it.parks { for a in acts { if let Act::Ingest(bs) = a { add(bs); } } }
+            }
+            _ => {}
+        }
+    }
     v
 }
 
@@ -536,6 +586,14 @@ pub struct StepObs {
     pub detail: String,
     /// effect phases observed during this step (`E_` unless `install_fs_recorder` was called)
     pub effects: String,
+    /// the history so far contains an interleaved flush (the line has `Q` / `Z…` / `A…` tokens)
+    pub inter: bool,
+    /// observed while a flush was parked at a sync point …
+    pub mid: bool,
+    /// … which is exactly a step boundary of the model (listing / catalogue comparable)
+    pub boundary: bool,
+    /// number of helper `force_flush()` calls that have returned so far
+    pub answered: usize,
 }
 
 /// Run `steps` on a fresh directory; one observation per step (stops after the first hang / panic).
@@ -545,14 +603,33 @@ pub fn run_history_deadline(cfg: &Cfg, steps: &[Step], deadline: u64) -> Vec<Ste
     let dir = tempfile::tempdir().unwrap();
     let mut sut = Sut::open(dir.path(), cfg);
     sut.deadline = deadline;
-    let mut out = vec![];
+    let mut out: Vec<StepObs> = vec![];
     let mut prev_meta = read_meta(dir.path());
     let _ = take_events(dir.path());
+    let mut inter_seen = false;
+    let mut answered = 0usize;
+    let mut requests = 0usize;
     for (i, st) in steps.iter().enumerate() {
+        if let Step::Inter(inter) = st {
+            inter_seen = true;
+            let tables = tables_of(&steps[..=i]);
+            let sub = run_inter(&mut sut, dir.path(), inter, &tables, &mut answered, &mut requests);
+            let _ = take_events(dir.path());
+            prev_meta = read_meta(dir.path());
+            let dead = sub.last().map(|o| o.dead).unwrap_or(true);
+            out.extend(sub);
+            if dead { break; }
+            continue;
+        }
         let wal_before: Vec<String> = wal_files(dir.path()).iter()
             .filter_map(|p| p.strip_prefix(dir.path()).ok().map(|r| r.to_string_lossy().to_string())).collect();
+        // a flush started by a step of an interleaving job must not meet a gate armed by another job
+        let guard = if GATE_INSTALLED.load(std::sync::atomic::Ordering::SeqCst) && (matches!(st, Step::Flush) || cfg.background()) {
+            Some(FLUSH_TOKEN.lock().unwrap_or_else(|e| e.into_inner()))
+        } else { None };
         sut.apply(st);
         if let Step::Restart = st { if sut.alive() { sut.settle(); } }
+        drop(guard);
         let effects = effects_tok(&collect_step_events(dir.path(), &wal_before));
         let meta = read_meta(dir.path());
         let mut kind = st.kind().to_string();
@@ -568,12 +645,14 @@ pub fn run_history_deadline(cfg: &Cfg, steps: &[Step], deadline: u64) -> Vec<Ste
                 if meta != prev_meta { t.push_str(&format!(" B{}", meta_tok(&meta))); kind.push_str("+B"); }
                 t
             }
+            Step::Inter(_) => unreachable!(),
         };
         prev_meta = meta.clone();
         let tables = tables_of(&steps[..=i]);
         let dump = sut_dump(&sut, &tables);
         let dead = !sut.alive();
-        out.push(StepObs { toks, kind, dump, listing: listing(dir.path()), meta, dead, detail: sut.panic_detail.clone(), effects });
+        out.push(StepObs { toks, kind, dump, listing: listing(dir.path()), meta, dead, detail: sut.panic_detail.clone(), effects,
+            inter: inter_seen, mid: false, boundary: true, answered });
         if dead { break; }
     }
     // dropping the database stops its threads; the directory is removed afterwards
@@ -600,6 +679,14 @@ pub fn describe(cfg: &Cfg, steps: &[Step]) -> String {
             }
             Step::Flush => s.push_str(" flush"),
             Step::Restart => s.push_str(" restart"),
+            Step::Inter(it) => {
+                s.push_str(match it.trigger { Trigger::Request => " FLUSH[by force_flush from thread A", Trigger::Background(_) => " FLUSH[by background trigger after an ingest" });
+                for (p, acts) in &it.parks {
+                    s.push_str(&format!("; parked at {}:", PARK_LABELS[*p].0));
+                    for a in acts { s.push_str(match a { Act::Ingest(_) => " ingest", Act::Request => " force_flush-from-another-thread" }); }
+                }
+                s.push(']');
+            }
         }
     }
     s
@@ -683,6 +770,222 @@ pub fn gen_history(rng: &mut Rng, tables: &[String], cols: &[String], nulls: boo
         else { steps.push(Step::Restart); }
     }
     steps
+}
+
+// ---------------------------------------------------------------------------------------------
+// Interleaved flushes: a gate on the sync-point hook parks the flush thread at a label while other threads act.
+// The hook is process-global, so only ONE database of this process may be inside a flush while a gate is armed:
+// every gated section (and every other flush started by a job of the interleaving phase) holds `FLUSH_TOKEN`.
+pub static FLUSH_TOKEN: std::sync::Mutex<()> = std::sync::Mutex::new(());
+pub static GATE_INSTALLED: std::sync::atomic::AtomicBool = std::sync::atomic::AtomicBool::new(false);
+
+#[derive(Default)]
+struct GateSt { on: bool, armed: Option<String>, parked_at: Option<String>, go: u64, trace: Vec<String> }
+pub struct Gate { st: std::sync::Mutex<GateSt>, cv: std::sync::Condvar }
+static GATE: std::sync::OnceLock<Gate> = std::sync::OnceLock::new();
+pub fn gate() -> &'static Gate { GATE.get_or_init(|| Gate { st: std::sync::Mutex::new(GateSt::default()), cv: std::sync::Condvar::new() }) }
+
+impl Gate {
+    fn on_label(&self, label: &str) {
+        let mut g = self.st.lock().unwrap();
+        if !g.on { return; }
+        if g.trace.len() < 4000 && (label.starts_with("flush:") || label.starts_with("forceflush:")) { g.trace.push(label.to_string()); }
+        if g.armed.as_deref() == Some(label) {
+            g.armed = None;
+            g.parked_at = Some(label.to_string());
+            let my = g.go;
+            self.cv.notify_all();
+            while g.go == my && g.on { g = self.cv.wait(g).unwrap(); }
+            g.parked_at = None;
+            self.cv.notify_all();
+        }
+    }
+    pub fn begin(&self) { let mut g = self.st.lock().unwrap(); *g = GateSt { on: true, ..GateSt::default() }; }
+    pub fn end(&self) { let mut g = self.st.lock().unwrap(); g.on = false; g.armed = None; g.go += 1; self.cv.notify_all(); }
+    pub fn arm(&self, label: &str) { self.st.lock().unwrap().armed = Some(label.to_string()); }
+    /// let the parked thread go on; `next` = label to park it at next
+    pub fn release(&self, next: Option<&str>) {
+        let mut g = self.st.lock().unwrap();
+        g.armed = next.map(|s| s.to_string());
+        g.go += 1;
+        self.cv.notify_all();
+    }
+    pub fn parked_at(&self, label: &str) -> bool { self.st.lock().unwrap().parked_at.as_deref() == Some(label) }
+    pub fn count(&self, label: &str) -> usize { self.st.lock().unwrap().trace.iter().filter(|l| *l == label).count() }
+    /// wait until the flush thread is parked at `label`, or `stop()` says it will not get there; true = parked
+    pub fn wait_parked(&self, label: &str, secs: u64, mut stop: impl FnMut() -> bool) -> bool {
+        let t0 = Instant::now();
+        loop {
+            if self.parked_at(label) { return true; }
+            if stop() { return self.parked_at(label); }
+            if t0.elapsed() > Duration::from_secs(secs) { return false; }
+            std::thread::sleep(Duration::from_millis(2));
+        }
+    }
+}
+
+pub fn install_gate() {
+    vharness::locustdb::verif::set_sync_callback(Some(Box::new(|l| gate().on_label(l))));
+    GATE_INSTALLED.store(true, std::sync::atomic::Ordering::SeqCst);
+}
+pub fn uninstall_gate() {
+    gate().end();
+    vharness::locustdb::verif::set_sync_callback(None);
+    GATE_INSTALLED.store(false, std::sync::atomic::Ordering::SeqCst);
+}
+
+fn wait_until(secs: u64, mut f: impl FnMut() -> bool) -> bool {
+    let t0 = Instant::now();
+    loop {
+        if f() { return true; }
+        if t0.elapsed() > Duration::from_secs(secs) { return false; }
+        std::thread::sleep(Duration::from_millis(2));
+    }
+}
+
+/// Tokens of the model steps of a flush from `done` (exclusive) to `upto` (inclusive) completed steps; the catalogue of
+/// `Zp` is filled in when the flush has completed (`@CAT@`).
+fn flush_toks(done: usize, upto: usize, k: usize) -> Vec<String> {
+    let mut v = vec![];
+    for step in (done + 1)..=upto {
+        v.push(match step { 1 => format!("Zb{}", k), 2 => "Zp@CAT@".to_string(), 3 => "Zm".into(), 4 => "Zd".into(), _ => "Zx".into() });
+    }
+    v
+}
+
+/// Run one flush step by step.  Returns one observation per ingestion performed while the flush was parked (`mid`),
+/// one when the flush has completed (before a possible follow-up flush runs), and one after the follow-up flush.
+pub fn run_inter(sut: &mut Sut, root: &Path, inter: &Inter, tables: &[String], answered: &mut usize, requests: &mut usize) -> Vec<StepObs> {
+    let _token = FLUSH_TOKEN.lock().unwrap_or_else(|e| e.into_inner());
+    let g = gate();
+    g.begin();
+    let db = sut.db.clone().unwrap();
+    let dl = sut.deadline;
+    let mut out: Vec<StepObs> = vec![];
+    let mut pend_toks: Vec<String> = vec![];
+    // helper force_flush calls of THIS step: (global request index, returned flag)
+    let mut helpers: Vec<(usize, Arc<std::sync::atomic::AtomicBool>)> = vec![];
+    let mut unanswered_before_flush1 = 0usize;
+    let spawn_request = |helpers: &mut Vec<(usize, Arc<std::sync::atomic::AtomicBool>)>, requests: &mut usize| -> bool {
+        let before = g.count("forceflush:registered");
+        let flag = Arc::new(std::sync::atomic::AtomicBool::new(false));
+        let (db2, f2) = (db.clone(), flag.clone());
+        std::thread::spawn(move || { db2.force_flush(); f2.store(true, std::sync::atomic::Ordering::SeqCst); });
+        helpers.push((*requests, flag));
+        *requests += 1;
+        wait_until(dl, || g.count("forceflush:registered") > before)
+    };
+    let obs = |sut: &Sut, toks: Vec<String>, kind: String, mid: bool, boundary: bool, answered: usize, dead: Option<&str>| -> StepObs {
+        let dump = match dead { Some(d) => d.to_string(), None => sut_dump(sut, tables) };
+        StepObs { toks: toks.join(" "), kind, dump, listing: listing(root), meta: read_meta(root), dead: dead.is_some() || !sut.alive(),
+            detail: sut.panic_detail.clone(), effects: "E_".into(), inter: true, mid, boundary, answered }
+    };
+    macro_rules! fail { ($why:expr) => {{
+        sut.dead = Some($why.to_string());
+        let o = obs(sut, std::mem::take(&mut pend_toks), "Zdead".into(), true, false, *answered, Some($why));
+        out.push(o);
+        g.end();
+        return out;
+    }}; }
+
+    // start the flush, parked at the first label
+    let first = PARK_LABELS[inter.parks[0].0].0;
+    g.arm(first);
+    let k1 = match &inter.trigger {
+        Trigger::Request => {
+            if !spawn_request(&mut helpers, requests) { fail!("hang:force_flush-register"); }
+            pend_toks.push("Q".into());
+            unanswered_before_flush1 = 1;
+            1
+        }
+        Trigger::Background(bs) => {
+            let ev = event_buffer(bs);
+            let db2 = db.clone();
+            match with_deadline(dl, move || ingest_sync(&db2, ev)) {
+                None => fail!("hang:ingest"),
+                Some(Err(p)) => { sut.panic_detail = p; fail!("panic:ingest"); }
+                Some(Ok(())) => {}
+            }
+            pend_toks.push(ingest_tok(bs));
+            0
+        }
+    };
+    let mut steps_done = 0usize;
+    for (pi, (p, acts)) in inter.parks.iter().enumerate() {
+        let (label, short, upto, boundary) = PARK_LABELS[*p];
+        if !g.wait_parked(label, dl, || false) { fail!("hang:flush-before-label"); }
+        pend_toks.extend(flush_toks(steps_done, upto, k1));
+        steps_done = upto;
+        for a in acts {
+            match a {
+                Act::Ingest(bs) => {
+                    let ev = event_buffer(bs);
+                    let db2 = db.clone();
+                    match with_deadline(dl, move || ingest_sync(&db2, ev)) {
+                        None => fail!("hang:ingest-during-flush"),
+                        Some(Err(p)) => { sut.panic_detail = p; fail!("panic:ingest-during-flush"); }
+                        Some(Ok(())) => {}
+                    }
+                    pend_toks.push(ingest_tok(bs));
+                    let o = obs(sut, std::mem::take(&mut pend_toks), format!("mid@{}", short), true, boundary, *answered, None);
+                    out.push(o);
+                }
+                Act::Request => {
+                    if !spawn_request(&mut helpers, requests) { fail!("hang:force_flush-register"); }
+                    pend_toks.push("Q".into());
+                }
+            }
+        }
+        let next = inter.parks.get(pi + 1).map(|(q, _)| PARK_LABELS[*q].0);
+        // the follow-up flush (if one comes) is parked before its freeze block so that the state after THIS flush can be read
+        g.release(Some(next.unwrap_or("flush:freeze:before")));
+    }
+    // flush 1 runs to its end
+    if !wait_until(dl, || g.count("flush:gc:wal:after") >= 1) { fail!("hang:flush"); }
+    pend_toks.extend(flush_toks(steps_done, 5, k1));
+    // the requests taken by flush 1 must be answered now
+    for (_, flag) in helpers.iter().take(unanswered_before_flush1) {
+        if !wait_until(dl, || flag.load(std::sync::atomic::Ordering::SeqCst)) { fail!("hang:force_flush"); }
+    }
+    // does a follow-up flush come?  It must while a request is unanswered; it does when the file-count trigger holds.
+    let all_back = |helpers: &Vec<(usize, Arc<std::sync::atomic::AtomicBool>)>| helpers.iter().all(|(_, f)| f.load(std::sync::atomic::Ordering::SeqCst));
+    let second = g.wait_parked("flush:freeze:before", dl, || {
+        all_back(&helpers) && !(sut.cfg.background() && sut.background_due())
+    }) || {
+        // requests were all answered and no trigger holds: give a starting flush a moment to show up
+        std::thread::sleep(Duration::from_millis(30));
+        g.parked_at("flush:freeze:before")
+    };
+    if !second && !all_back(&helpers) { fail!("hang:force_flush"); }
+    // state after flush 1 (nothing is running: the follow-up flush, if any, is parked before its freeze block)
+    let returned_now: Vec<usize> = helpers.iter().filter(|(_, f)| f.load(std::sync::atomic::Ordering::SeqCst)).map(|(i, _)| *i).collect();
+    for i in &returned_now { pend_toks.push(format!("A{}", i)); }
+    *answered += returned_now.len();
+    helpers.retain(|(_, f)| !f.load(std::sync::atomic::Ordering::SeqCst));
+    let cat1 = meta_tok(&read_meta(root));
+    for o in out.iter_mut() { o.toks = o.toks.replace("@CAT@", &cat1); }
+    for t in pend_toks.iter_mut() { *t = t.replace("@CAT@", &cat1); }
+    let o = obs(sut, std::mem::take(&mut pend_toks), "Zend".into(), false, true, *answered, None);
+    out.push(o);
+    if second {
+        let k2 = helpers.len();
+        g.release(None);
+        if !wait_until(dl, || g.count("flush:gc:wal:after") >= 2) { fail!("hang:flush2"); }
+        for (_, flag) in helpers.iter() {
+            if !wait_until(dl, || flag.load(std::sync::atomic::Ordering::SeqCst)) { fail!("hang:force_flush"); }
+        }
+        // wait for a possible third flush to be over (file-count trigger): quiescence as in `settle`
+        g.end();
+        sut.settle();
+        let cat2 = meta_tok(&read_meta(root));
+        let mut toks = vec![format!("Zb{}", k2), format!("Zp{}", cat2), "Zm".into(), "Zd".into(), "Zx".into()];
+        for (i, _) in &helpers { toks.push(format!("A{}", i)); }
+        *answered += helpers.len();
+        let o = obs(sut, toks, "Zend2".into(), false, true, *answered, None);
+        out.push(o);
+    }
+    g.end();
+    out
 }
 
 // ---------------------------------------------------------------------------------------------
@@ -770,6 +1073,108 @@ pub fn standard_jobs(args: &Args, rng: &mut Rng, tables: &[String], cols: &[Stri
     } else {
         jobs.extend(exhaustive(4, &Cfg { combine: 1, ..Cfg::plain() }, "exh4:cf1", !null_loss));
         jobs.extend(exhaustive(4, &Cfg { combine: 999, io: 4, ..Cfg::plain() }, "exh4:cf999", true));
+    }
+    jobs
+}
+
+/// Histories with ONE flush run step by step and other calls in between (quick: every park label with one overlapped
+/// ingestion followed at once by a clean restart; two overlapped ingestions at two labels; a force_flush requested by a
+/// second thread while the flush is past its freeze; a flush started by the background trigger.  thorough: all label
+/// pairs, more configurations, random requests).
+pub fn inter_jobs(args: &Args, rng: &mut Rng, tables: &[String], cols: &[String], null_loss: bool) -> Vec<Job> {
+    let ints = |v: &[i64]| v.iter().map(|x| Cell::Int(*x)).collect::<Vec<_>>();
+    let ing = |t: &str, c: &str, v: &[i64]| vec![bat(t, &[(c, ints(v))])];
+    let n = PARK_LABELS.len();
+    let plain = Cfg::plain();
+    let all_cfgs = vec![
+        Cfg { combine: 4, io: 1, ..plain.clone() },
+        Cfg { combine: 1, io: 4, cthreads: 2, ..plain.clone() },
+        Cfg { combine: 0, io: 4, ..plain.clone() },
+        Cfg { combine: 999, part_bytes: 64, io: 1, ..plain.clone() },
+    ];
+    let cfgs: Vec<Cfg> = if args.thorough() { all_cfgs.clone() } else { all_cfgs[..2].to_vec() };
+    let mut jobs = vec![];
+    // the column the overlapped batches use: a second column only where compaction cannot hit the open C07 finding
+    let col2 = |cfg: &Cfg| if null_loss && cfg.combine != 999 { "a" } else { "b" };
+    for p in 0..n {
+        let short = PARK_LABELS[p].1;
+        for cfg in &cfgs {
+            // one ingestion overlaps the flush; clean restart at once (no further flush), then life goes on
+            jobs.push(Job { class: format!("inter:overlap:{}", short), cfg: cfg.clone(), steps: vec![
+                Step::Ingest(ing("t", "a", &[1, 2])),
+                Step::Inter(Inter { trigger: Trigger::Request, parks: vec![(p, vec![Act::Ingest(ing("t", col2(cfg), &[3]))])] }),
+                Step::Restart, Step::Ingest(ing("t", "a", &[4])), Step::Restart] });
+        }
+        // with earlier partitions (so that combine factor 1 compacts inside the interleaved flush) and a flush before the restart
+        let cfg = &all_cfgs[1];
+        jobs.push(Job { class: format!("inter:overlap-compacting:{}", short), cfg: cfg.clone(), steps: vec![
+            Step::Ingest(ing("t", "a", &[1])), Step::Flush, Step::Ingest(vec![bat("t", &[("a", ints(&[2]))]), bat("u", &[("c", ints(&[7, 8]))])]),
+            Step::Inter(Inter { trigger: Trigger::Request, parks: vec![(p, vec![Act::Ingest(vec![bat("t", &[("a", ints(&[3]))]), bat("u", &[("c", ints(&[9]))])])])] }),
+            Step::Restart, Step::Flush, Step::Restart] });
+        // a second thread calls force_flush while the flush is past its freeze (after having ingested): it must be answered by a LATER flush
+        let cfg = &cfgs[p % cfgs.len()];
+        jobs.push(Job { class: format!("inter:late-request:{}", short), cfg: cfg.clone(), steps: vec![
+            Step::Ingest(ing("t", "a", &[1])),
+            Step::Inter(Inter { trigger: Trigger::Request, parks: vec![(p, vec![Act::Ingest(ing("t", "a", &[2, 3])), Act::Request])] }),
+            Step::Restart] });
+    }
+    for p in if args.thorough() { (0..n).collect::<Vec<_>>() } else { vec![0, 4] } {
+        let short = PARK_LABELS[p].1;
+        // late request without any overlapped ingestion (the follow-up flush has nothing to do)
+        jobs.push(Job { class: format!("inter:late-request-empty:{}", short), cfg: cfgs[0].clone(), steps: vec![
+            Step::Ingest(ing("t", "a", &[1])),
+            Step::Inter(Inter { trigger: Trigger::Request, parks: vec![(p, vec![Act::Request])] }),
+            Step::Ingest(ing("t", "a", &[2])), Step::Restart] });
+        // request first, ingestion after it (not covered by that request), both while parked
+        jobs.push(Job { class: format!("inter:late-request-then-ingest:{}", short), cfg: cfgs[1 % cfgs.len()].clone(), steps: vec![
+            Step::Ingest(ing("t", "a", &[1])),
+            Step::Inter(Inter { trigger: Trigger::Request, parks: vec![(p, vec![Act::Request, Act::Ingest(ing("t", "a", &[2]))])] }),
+            Step::Restart] });
+    }
+    // two park points, ingestion at both (the second one also creates a table the flush has never seen)
+    let mut pairs: Vec<(usize, usize)> = vec![];
+    for a in 0..n { for b in (a + 1)..n { pairs.push((a, b)); } }
+    if !args.thorough() {
+        let mut picked = vec![];
+        for _ in 0..6 { let i = rng.below(pairs.len() as u64) as usize; picked.push(pairs.remove(i)); }
+        pairs = picked;
+    }
+    for (i, (a, b)) in pairs.into_iter().enumerate() {
+        let cfg = &cfgs[i % cfgs.len()];
+        jobs.push(Job { class: format!("inter:overlap2:{}+{}", PARK_LABELS[a].1, PARK_LABELS[b].1), cfg: cfg.clone(), steps: vec![
+            Step::Ingest(ing("t", "a", &[1])), Step::Flush, Step::Ingest(vec![bat("t", &[("a", ints(&[2]))]), bat("u", &[("c", ints(&[7]))])]),
+            Step::Inter(Inter { trigger: Trigger::Request, parks: vec![
+                (a, vec![Act::Ingest(ing("t", col2(cfg), &[3]))]),
+                (b, vec![Act::Ingest(ing("u", "c", &[8])), Act::Ingest(ing("Tab", "a", &[5, 6]))])] }),
+            Step::Restart, Step::Ingest(ing("t", "a", &[4])), Step::Flush, Step::Restart] });
+    }
+    // the flush is started by the background thread (file-count / size trigger), not by a request
+    for (i, p) in (if args.thorough() { (0..n).collect::<Vec<_>>() } else { vec![0, 3, 4] }).into_iter().enumerate() {
+        let by_size = i % 2 == 1;
+        let cfg = if by_size { Cfg { wal_bytes: 1, ..cfgs[i % cfgs.len()].clone() } } else { Cfg { wal_files: 0, ..cfgs[i % cfgs.len()].clone() } };
+        jobs.push(Job { class: format!("inter:bg-trigger-{}:{}", if by_size { "size" } else { "files" }, PARK_LABELS[p].1), cfg, steps: vec![
+            Step::Inter(Inter { trigger: Trigger::Background(ing("t", "a", &[1])), parks: vec![(p, vec![Act::Ingest(ing("t", "a", &[2]))])] }),
+            Step::Restart] });
+    }
+    // random requests at random labels
+    let n_rand = if args.thorough() { 120 } else { 6 };
+    for i in 0..n_rand {
+        let cfg = Cfg { wal_files: Cfg::plain().wal_files, wal_bytes: Cfg::plain().wal_bytes, ..Cfg::random(rng, false) };
+        let stable = null_loss && cfg.combine != 999;
+        let ts = &tables[..1 + (i % tables.len().min(3))];
+        let fixed = vec![cols[rng.below(cols.len() as u64) as usize].clone()];
+        let req = |rng: &mut Rng| if stable { gen_request(rng, ts, &fixed, false, 3) } else { let nulls = rng.chance(1, 2); gen_request(rng, ts, cols, nulls, 3) };
+        let a = rng.below(n as u64) as usize;
+        let b = rng.below(n as u64) as usize;
+        let (a, b) = (a.min(b), a.max(b));
+        let mut parks = vec![(a, vec![Act::Ingest(req(rng))])];
+        if b > a { parks.push((b, if rng.chance(1, 2) { vec![Act::Ingest(req(rng)), Act::Request] } else { vec![Act::Ingest(req(rng))] })); }
+        let mut steps = vec![Step::Ingest(req(rng))];
+        if rng.chance(1, 2) { steps.push(Step::Flush); steps.push(Step::Ingest(req(rng))); }
+        steps.push(Step::Inter(Inter { trigger: Trigger::Request, parks }));
+        steps.push(Step::Restart);
+        if rng.chance(1, 2) { steps.push(Step::Ingest(req(rng))); steps.push(Step::Flush); steps.push(Step::Restart); }
+        jobs.push(Job { class: format!("inter:rand:{}{}", cfg.class(), if stable { "" } else { "+vary" }), cfg, steps });
     }
     jobs
 }
